@@ -208,7 +208,7 @@ impl<'a> Headers<'a> {
 }
 
 /// A Content-Length value: optional whitespace around 1*DIGIT that fits in a u64.
-fn parse_content_length(value: &[u8]) -> Option<u64> {
+pub(crate) fn parse_content_length(value: &[u8]) -> Option<u64> {
     let digits = trim_ows(value);
     if digits.is_empty() {
         return None;
